@@ -283,6 +283,19 @@ func (c *Ctx) Callees(cc *ssa.CallCommon) []*ssa.Function {
 			return []*ssa.Function{f}
 		}
 	}
+	// a function looked up in a package-level table (map literal of function values): any entry
+	if _, tbl := c.tableCallees(cc.Value); len(tbl) > 0 {
+		var ks []string
+		for k := range tbl {
+			ks = append(ks, k)
+		}
+		sort.Strings(ks)
+		var out []*ssa.Function
+		for _, k := range ks {
+			out = append(out, tbl[k])
+		}
+		return out
+	}
 	// local function variables (closures assigned once to a local, possibly captured)
 	if f := resolveFuncVar(cc.Value, 0); f != nil {
 		return []*ssa.Function{f}
@@ -358,7 +371,9 @@ func calleeName(cc *ssa.CallCommon) string {
 
 // ---- error / bool results and their success edges --------------------------------------------
 
-type edge struct{ from, to *ssa.BasicBlock }
+// edge is a CFG edge; with via != nil it stands for "from -> to when from was entered from via" (a short-circuit
+// boolean materialised as a φ in from and branched on there: the branch is decided per incoming edge).
+type edge struct{ from, to, via *ssa.BasicBlock }
 
 // errResult returns the SSA value holding the error result of a call (nil if none).
 func errResult(call *ssa.Call) ssa.Value {
@@ -416,6 +431,61 @@ func nilTestEdges(v ssa.Value, wantNil bool) []edge {
 	return out
 }
 
+// boolEdgesT is boolEdges plus the threaded edges through short-circuit φs: v flows into φ p of block B along the
+// edge P -> B and B branches on p (or !p): entering B from P, the branch taken is decided by v.
+func boolEdgesT(v ssa.Value, want bool) []edge {
+	out := boolEdges(v, want)
+	if v.Referrers() == nil {
+		return out
+	}
+	for _, r := range *v.Referrers() {
+		switch x := r.(type) {
+		case *ssa.UnOp:
+			if x.Op == token.NOT {
+				for _, e := range boolEdgesT(x, !want) {
+					if e.via != nil {
+						out = append(out, e)
+					}
+				}
+			}
+		case *ssa.Phi:
+			B := x.Block()
+			iff, ok := B.Instrs[len(B.Instrs)-1].(*ssa.If)
+			if !ok {
+				continue
+			}
+			pol, found := true, false
+			cond := iff.Cond
+			for d := 0; d < 4 && !found; d++ {
+				if cond == ssa.Value(x) {
+					found = true
+					break
+				}
+				u, isU := cond.(*ssa.UnOp)
+				if !isU || u.Op != token.NOT || u.Block() != B {
+					break
+				}
+				cond, pol = u.X, !pol
+			}
+			if !found {
+				continue
+			}
+			for i, e := range x.Edges {
+				if e != v {
+					continue
+				}
+				// v == want  ⇒  p == want  ⇒  cond == (want == pol)
+				to := B.Succs[1]
+				if want == pol {
+					to = B.Succs[0]
+				}
+				out = append(out, edge{from: B, to: to, via: B.Preds[i]})
+			}
+		}
+	}
+	return out
+}
+
 // boolEdges returns the CFG edges on which boolean value v has the given truth value (follows ! and
 // simple short-circuit phis are not followed).
 func boolEdges(v ssa.Value, want bool) []edge {
@@ -432,9 +502,9 @@ func boolEdges(v ssa.Value, want bool) []edge {
 		case *ssa.If:
 			blk := x.Block()
 			if want {
-				out = append(out, edge{blk, blk.Succs[0]})
+				out = append(out, edge{from: blk, to: blk.Succs[0]})
 			} else {
-				out = append(out, edge{blk, blk.Succs[1]})
+				out = append(out, edge{from: blk, to: blk.Succs[1]})
 			}
 		}
 	}
@@ -565,21 +635,84 @@ func instrPos(in ssa.Instruction) token.Pos {
 // reach computes blocks reachable from `from` without crossing any edge in `cut`.
 func reach(from *ssa.BasicBlock, cut map[edge]bool) map[*ssa.BasicBlock]*ssa.BasicBlock {
 	seen := map[*ssa.BasicBlock]*ssa.BasicBlock{from: nil}
-	stack := []*ssa.BasicBlock{from}
+	type st struct{ b, via *ssa.BasicBlock }
+	// blocks that have per-predecessor (threaded) cut edges are explored once per predecessor
+	threaded := map[*ssa.BasicBlock]bool{}
+	for e := range cut {
+		if e.via != nil {
+			threaded[e.from] = true
+		}
+	}
+	done := map[st]bool{}
+	stack := []st{{from, nil}}
 	for len(stack) > 0 {
-		b := stack[len(stack)-1]
+		cur := stack[len(stack)-1]
 		stack = stack[:len(stack)-1]
+		if done[cur] {
+			continue
+		}
+		done[cur] = true
+		b := cur.b
 		for _, s := range b.Succs {
-			if cut[edge{b, s}] {
+			if cut[edge{from: b, to: s}] {
+				continue
+			}
+			if cur.via != nil && cut[edge{from: b, to: s, via: cur.via}] {
+				continue
+			}
+			// a φ-branch entered along an edge that carries a constant takes only the matching successor
+			if cur.via != nil && constBranchExcludes(b, cur.via, s) {
 				continue
 			}
 			if _, ok := seen[s]; !ok {
 				seen[s] = b
-				stack = append(stack, s)
+			}
+			nx := st{s, nil}
+			if threaded[s] {
+				nx.via = b
+			}
+			if !done[nx] {
+				stack = append(stack, nx)
 			}
 		}
 	}
 	return seen
+}
+
+// constBranchExcludes: block b ends in `if p` (or !p) with p a φ of b whose edge from via is a boolean constant, and
+// that constant sends control to the other successor.
+func constBranchExcludes(b, via, s *ssa.BasicBlock) bool {
+	iff, ok := b.Instrs[len(b.Instrs)-1].(*ssa.If)
+	if !ok || len(b.Succs) != 2 || b.Succs[0] == b.Succs[1] {
+		return false
+	}
+	cond, pol := iff.Cond, true
+	for d := 0; d < 4; d++ {
+		u, isU := cond.(*ssa.UnOp)
+		if !isU || u.Op != token.NOT || u.Block() != b {
+			break
+		}
+		cond, pol = u.X, !pol
+	}
+	phi, ok := cond.(*ssa.Phi)
+	if !ok || phi.Block() != b {
+		return false
+	}
+	for i, p := range b.Preds {
+		if p != via {
+			continue
+		}
+		k, isK := phi.Edges[i].(*ssa.Const)
+		if !isK || k.Value == nil || k.Value.Kind() != constant.Bool {
+			return false
+		}
+		taken := b.Succs[1]
+		if constant.BoolVal(k.Value) == pol {
+			taken = b.Succs[0]
+		}
+		return s != taken
+	}
+	return false
 }
 
 func (c *Ctx) witnessPath(seen map[*ssa.BasicBlock]*ssa.BasicBlock, to *ssa.BasicBlock) []string {
